@@ -78,6 +78,15 @@ def make_recipe(rng, tier):
         cpts = sorted(int(c) for c in rng.choice(np.arange(1, n), size=k, replace=False)) if k else []
         if k and rng.random() < 0.3:
             cpts = sorted(set(cpts) | {1, n - 1})
+        if cpts and rng.random() < 0.25:
+            # zero-length segments: a repeated position and / or a changepoint at 0 (both accepted by
+            # the validation: positions only have to lie in 0..n-1); the segments after them must
+            # still get their own parameters
+            extra = [cpts[int(rng.integers(len(cpts)))]] * int(rng.integers(1, 3))
+            if rng.random() < 0.4:
+                extra.append(0)
+            cpts = sorted(cpts + extra)
+            r["repeated"] = True
         r.update(changepoints=cpts, means=_mv(rng, len(cpts) + 1, p, "mean"),
                  variances=_mv(rng, len(cpts) + 1, p, "var"))
         # p is defined by the first mean: make it explicit
@@ -174,6 +183,8 @@ def exec_case(ctx, r):
     if gen == "changing":
         cp, means, vars_ = r["changepoints"], r["means"], r["variances"]
         k = len(cp) + 1
+        if r.get("repeated"):
+            ctx.stat("cases[zero-length segments]")
         label = f"generate_changing_data(n={n}, changepoints={cp}, p={p}, seed={seed})"
         # the SAME argument objects are passed to both calls (identical arguments): they must not be
         # modified by the generator
